@@ -49,7 +49,7 @@
  "name": "fill_dir_block_32_tight",
  "props": ["C05", "C10"],
  "level": "U/k",
- "tier": "wip",
+ "tier": "quick",
  "harness": "h_fill_dir_block",
  "enforce": ["fill_dir_block"],
  "replace": ["ext2fs_resize_array"],
